@@ -47,7 +47,8 @@ def jobs(tier):
         J.append(conc("1,0,1,0", workers=16, hmap=1, init=init, min_partition_order=0, pthread_create_eagain=1, prog0=prog((K_RESIZE, 1)),
                       prog1=prog((K_LOOKUP, 1), (K_WALKALL, 0)), final_destroy=1, **base))
     # destroy after concurrent activity (auto-resize table: teardown goes through the worker)
-    J.append(conc("2,0,0,0", flags=1, hmap=1, ninit=3, init_keys=0x210, prog0=prog((K_ADD, 3)), prog1=prog((K_DELN, 0)), final_destroy=1))
+    J.append(conc("2,0,0,0", flags=1, hmap=4, init=1, ninit=3, init_keys=0x210, prog0=prog((K_ADD, 3)), prog1=prog((K_DELN, 0)), final_destroy=1))
+    J.append(conc("2,0,0,0", flags=1, hmap=4, init=1, ninit=3, init_keys=0x210, prog0=prog((K_ADD, 3)), final_destroy=1, settle_end=0))
     # destroy while a lazy (count-driven) SHRINK is still pending on the worker: the emptiness walk of cds_lfht_destroy runs over bucket
     # nodes whose arrays the worker is about to free
     for init in (4, 8):
